@@ -2,14 +2,14 @@ SPECIFICATION MCSpec
 CONSTANTS
   Runs = {"A", "B"}
   Mode = "mc"
-  Faithful = {}
+  Faithful = {"F8"}
   Tabs <- MCTabs
   MaxVal = 3
   MaxRho = 3
   MaxIter = 2
   MaxK = 2
   MaxF = 1
-  CfgSpace <- QTwinObsCfgs
+  CfgSpace <- QTwinStopCfgs
 CONSTRAINT Bound
 CHECK_DEADLOCK FALSE
 INVARIANT TypeOK
